@@ -40,7 +40,7 @@ def build(want_proofs=True):
         except translate.TranslateError as e:
             res["translate_error"] = str(e)
             return res
-        p = subprocess.run(["lake", "build", "wormhole-driver"], cwd=LEAN, stdout=subprocess.PIPE,
+        p = subprocess.run(["lake", "build", "wormhole-driver", "wormhole-db-driver"], cwd=LEAN, stdout=subprocess.PIPE,
                            stderr=subprocess.STDOUT, timeout=3000)
         res["driver_ok"] = p.returncode == 0
         res["log"] += p.stdout.decode()[-3000:]
@@ -302,6 +302,26 @@ def main():
     pid = a.pid
     if pid not in PROPS:
         print("unknown property", pid); sys.exit(2)
+    if a.replay:
+        # re-run a replay file (or a corpus/findings file) against the current tree
+        d = json.load(open(a.replay if os.path.isabs(a.replay) or os.path.exists(a.replay) else os.path.join(VERIF, a.replay)))
+        if "history" not in d:
+            print("replay file has no history (it names a broken proof obligation):", json.dumps(d)[:600]); sys.exit(1)
+        if not a.no_build:
+            build(want_proofs=False)
+        r = run_history(pid, d["history"], dict(d.get("meta", {}), tier="thorough"))
+        for o in d["history"]:
+            print("   ", proto.op_line(o))
+        for f in r["findings"]:
+            print("FINDING", json.dumps(f, default=str)[:1200])
+        if r["diff"]:
+            print("MODEL/IMPLEMENTATION DIFFER", json.dumps(r["diff"], default=str)[:1200])
+        bad = [f for f in r["findings"] if f["known"] is None]
+        if bad or r["diff"]:
+            print("VIOLATION property=%s replay=%s%s" % (pid, a.replay, "" if bad else " no-failing-input-found"))
+            sys.exit(1)
+        print("%s replay: ok" % pid)
+        sys.exit(0)
     tier = a.tier if a.tier in ("quick", "thorough") else "quick"
     os.environ["VERIF_TIER_EFFECTIVE"] = tier
     seed = int(os.environ.get("VERIF_SEED", "1"))
@@ -337,6 +357,13 @@ def main():
     cov["theorems"] = au["axioms"]
     cov["checker_cmd"] = "cd lean && lake build Wormhole && lake env lean .lake/audit_%s.lean   (#print axioms of every listed theorem)" % pid
     cov["trusted_base"] = spec.get("trusted_base", [])
+    if tier == "thorough" and spec.get("modules") and not proof_broken:
+        # independent re-check of the compiled property modules
+        lc = subprocess.run(["lake", "env", "leanchecker"] + spec["modules"], cwd=LEAN, stdout=subprocess.PIPE,
+                            stderr=subprocess.STDOUT, timeout=3000)
+        cov["leanchecker"] = {"modules": spec["modules"], "exit": lc.returncode, "tail": lc.stdout.decode()[-300:]}
+        if lc.returncode != 0:
+            proof_broken = {"broken": "leanchecker rejects the compiled modules of %s" % pid, "log": lc.stdout.decode()[-1500:]}
 
     from props import profiles_for, engine_for
     eng = engine_for(pid)
